@@ -239,7 +239,7 @@ func (hr *histRunner) run(seq []int) (fs []finding, log []string) {
 		}
 		if expectOK {
 			if err != nil {
-				fail("history:valid-add-rejected:"+m.ci.name, "%s returns %v although the model (state %s) accepts it", label, err, m.stateKey())
+				fail("add:error-before-required-units:"+m.ci.name, "%s returns %v although the model (state %s) accepts it", label, err, m.stateKey())
 				m.phase = phErrored
 				return false
 			}
@@ -250,10 +250,17 @@ func (hr *histRunner) run(seq []int) (fs []finding, log []string) {
 		}
 		cls := strings.ReplaceAll(why, " ", "-")
 		if err == nil {
-			fail("history:add-accepted:"+cls, "%s returns nil; the model (state %s) rejects it: %s", label, m.stateKey(), why)
-		}
-		if wrote != 0 {
-			fail("history:bytes-written-by-failing-call:"+cls, "%s wrote %d bytes although it %s", label, wrote, map[bool]string{true: "was accepted wrongly", false: "returned an error"}[err == nil])
+			// same root causes as the image sweeps: same signatures
+			clause := "history:add-accepted:" + cls
+			switch {
+			case m.phase == phReady && m.ci.n == n && arg == argValid && !failW && m.remaining == 0:
+				clause = "add:accepted-beyond-required-units:" + m.ci.name
+			case m.phase == phReady && m.ci.n == n && arg == argInvalidBlock:
+				clause = "validity:out-of-range-block-accepted:ac"
+			}
+			fail(clause, "%s returns nil; the model (state %s) rejects it: %s", label, m.stateKey(), why)
+		} else if wrote != 0 {
+			fail("add:bytes-written-by-failing-call", "%s wrote %d bytes although it returned %v", label, wrote, err)
 		}
 		m.phase = phErrored
 		return false
@@ -279,18 +286,21 @@ func (hr *histRunner) run(seq []int) (fs []finding, log []string) {
 		v.Write(file)
 		v.drain(true)
 		for _, f := range v.fs {
-			fail("history-file:"+f.clause, "%s", f.detail)
+			fail(f.clause, "%s", f.detail)
 		}
 		if !v.dead && v.finished {
 			wk.st.images++
 			wk.st.imagesNontrivial++
-			wk.stdlib(c, file, func(cl, format string, a ...any) { fail("history-file:"+cl, format, a...) })
+			wk.stdlib(c, file, func(cl, format string, a ...any) { fail(cl, format, a...) })
 			note("file of %d bytes verified: %d blocks", len(file), v.done)
 		}
 	}
 	for _, oi := range seq {
 		op := &hr.ops[oi]
 		hr.states[m.stateKey()]++
+		if len(fs) > 0 {
+			return // model and implementation have diverged; later calls mean nothing
+		}
 		if op.kind == kAdd {
 			doAdd(op.n, op.arg, op.failWriter, op.name)
 			continue
@@ -344,9 +354,8 @@ func (hr *histRunner) run(seq []int) (fs []finding, log []string) {
 		} else {
 			if err == nil {
 				fail("history:reset-accepted-bad-arguments", "%s returns nil", op.name)
-			}
-			if wrote != 0 {
-				fail("history:bytes-written-by-failing-call:reset", "%s wrote %d bytes", op.name, wrote)
+			} else if wrote != 0 {
+				fail("add:bytes-written-by-failing-call", "%s wrote %d bytes", op.name, wrote)
 			}
 			m.phase = phErrored
 		}
